@@ -31,6 +31,7 @@ func c13(c *eng.Ctx, r *eng.Report) {
 		"R13.6 a dealer deals one polynomial per group: the seed, the coefficients, the shares and the published dealer key are computed from the miner's long-term secret and the group hash with no randomness, clock or environment source in their cone, so a dealer whose context is rebuilt (restart, re-delivered init) hands the remaining members pieces of the same polynomial the others already hold. " +
 		"R13.7 recovery keeps nothing between calls and runs sequentially: no cache, package-variable store, shared object or goroutine in the cone of recoverSignature/RecoverGroupSignature (a memo keyed by the signer *set* and holding per-*position* coefficients is right for the first arrival order only). " +
 		"R13.8 a member signs with the key the DKG gave it, also after a restart: the record written for the signing key is exactly SignSecKey.Serialize() (a variable-length big-endian integer) and what is read back is handed to Deserialize whole — no re-slicing at a fixed width, nothing appended to the same record; " +
+		"R13.11 the recovered group signature is brought to its final representation before it is published: in genGroupSign every store to GroupSignGenerator.groupSign is followed, before the function returns and so under the caller's write lock, by a Serialize of that field — serialising a point makes it affine in place, and the readers (SignRecovered under the read lock, GetGroupSign().Serialize() under none) share the point through the Signature's pointer, so an un-normalised point is rewritten by several readers at once and one of them hands out garbage; " +
 		"R13.9 a share piece reaches only the member it was evaluated for: the two senders of share pieces (the initial deal and the answer to a re-request) use the unicast SendToStranger with the receiver's id — a ResponseSharePiece carries no receiver field, so a group-wide spread lets another member that still misses this dealer's piece adopt f(requester). " +
 		"R13.10 all members sign the same curve point H(m): the big-endian encodings between message and point (HashToPoint's coordinates, id and scalar encoders) are right-aligned, each in a buffer of its own (C14's R14.5 under this property's id — a coordinate with a leading zero byte must not inherit bytes of the previous one); " +
 		"Not decided: that interpolation over any ≥k points yields the same group element (algebra), DKG secrecy/robustness, hash-to-curve, anything about the pairing."
@@ -45,6 +46,7 @@ func c13(c *eng.Ctx, r *eng.Report) {
 	c13RecoveryPure(c, r)
 	c13KeyAtRest(c, r)
 	c13PieceRouting(c, r)
+	c13PublishNormalised(c, r)
 	// R13.10: every member signs the same point H(m): the fixed-width encodings on the way from message to curve
 	// point (HashToPoint, the id and scalar encoders) are right-aligned in a buffer of their own (C14's R14.5 here)
 	c14LeftPadAs(c, r, "R13.10")
@@ -1168,5 +1170,57 @@ func c13PieceRouting(c *eng.Ctx, r *eng.Report) {
 			}
 		}
 		r.Check(ok && len(sends) == 1, rule, "share-piece-route:"+spec.fn, c.Pos(fn.Pos()), "one unicast SendToStranger to the receiver's id", fmt.Sprintf("%s sends the share piece with %v instead of one SendToStranger to the receiver it was evaluated for: any other member that still misses this dealer's piece keeps the first one it sees, sums a key that is not on the group polynomial, and every subset that includes it recovers an invalid group signature", spec.fn, sends))
+	}
+}
+
+// c13PublishNormalised: see R13.11.
+func c13PublishNormalised(c *eng.Ctx, r *eng.Report) {
+	const rule = "R13.11"
+	r.Min(rule, 1)
+	fn := c.Func("consensus/model", "(*GroupSignGenerator).genGroupSign")
+	if !r.Anchor(fn != nil, rule, "(*GroupSignGenerator).genGroupSign") {
+		return
+	}
+	normalises := func(in ssa.Instruction) bool {
+		call, ok := in.(ssa.CallInstruction)
+		if !ok {
+			return false
+		}
+		n := eng.CallName(call.Common())
+		if !(strings.HasSuffix(n, ".Serialize") || strings.HasSuffix(n, ".Marshal") || strings.HasSuffix(n, ".MakeAffine") || strings.HasSuffix(n, ".GetHexString")) {
+			return false
+		}
+		for _, a := range call.Common().Args {
+			if strings.Contains(eng.Desc(a), "groupSign") {
+				return true
+			}
+		}
+		return false
+	}
+	n := 0
+	for _, b := range fn.Blocks {
+		for _, in := range b.Instrs {
+			st, ok := in.(*ssa.Store)
+			if !ok {
+				continue
+			}
+			if t, f := eng.FieldOf(st.Addr); f != "groupSign" || !strings.HasSuffix(t, "GroupSignGenerator") {
+				continue
+			}
+			n++
+			leak := ""
+			for _, re := range eng.Returns(fn) {
+				if !eng.Reaches(st, re.Ret) {
+					continue
+				}
+				if ok2, _ := eng.ReachAvoiding(fn, st, re, normalises); ok2 {
+					leak = c.Pos(re.Ret.Pos())
+				}
+			}
+			r.Check(leak == "", rule, "publish-normalised:genGroupSign", c.Pos(st.Pos()), "the stored signature is serialised once before genGroupSign returns", "genGroupSign stores the recovered signature and returns (at "+leak+") without serialising it once: the point is still in projective form when the write lock is released, and the first readers — SignRecovered under the read lock, GetGroupSign().Serialize() under none — each make it affine in place through the pointer all Signature copies share; overlapping readers corrupt the coordinates and the signature handed out differs from what any other threshold subset yields and fails under the group key")
+		}
+	}
+	if n == 0 {
+		r.Fail(rule, "publish-normalised:none", c.Pos(fn.Pos()), "genGroupSign no longer stores GroupSignGenerator.groupSign: the rule has lost its anchor")
 	}
 }
